@@ -214,6 +214,24 @@ fn datetime_maps_back(max_jump: i64) {
     vrt::check("zone: the returned wall-clock time is never before the requested one", local_of_r.ge(l));
 }
 
+/// A skipped wall-clock time maps to the first valid instant after it, however long the gap: a zone
+/// that jumps from UTC-10h by `jump_min` minutes (Pacific/Apia skipped a whole day), every minute of
+/// the gap (the minute is concretised by bisection, so the stepping loop runs on constants).
+fn datetime_in_gap(jump_min: i64) {
+    let x = 2000 * 60; // transition at base + 33h20 UTC
+    let o1 = -600 * 60;
+    let o2 = o1 + jump_min * 60;
+    let z = StubTz { x: SymInt::Const(x), o1: SymInt::Const(o1), o2: SymInt::Const(o2) };
+    let loc = TzLocation::new(z);
+    // local minutes inside the gap: [x + o1, x + o2)
+    let gap_lo = (x + o1) / 60;
+    let k = vrt::fresh_int("n_min", gap_lo, gap_lo + jump_min - 1);
+    let k = vrt::concretize(k, gap_lo, gap_lo + jump_min - 1);
+    let n = naive_on_axis(SymInt::Const(k));
+    let r = loc.datetime(n);
+    vrt::check("zone: datetime() of a skipped wall-clock time is the first valid instant after it", utc_axis(&r).eq(z.x));
+}
+
 /// Monotonicity: n1 <= n2 implies datetime(n1) <= datetime(n2) in absolute time.
 fn datetime_monotone(max_jump: i64) {
     let z = fresh_zone("z", max_jump);
@@ -283,12 +301,14 @@ pub fn templates(thorough: bool) -> Vec<Template> {
     let jump = if thorough { 180 } else { 65 };
     let mut out = vec![];
     out.push(Template::new("naive", format!("TzLocation::naive on a zone with one symbolic transition (offset jump <= {jump} min), input in another such zone"), move || naive_is_wall_clock(jump)));
-    let dt_jump = if thorough { 180 } else { 200 };
-    out.push(Template::new("datetime", format!("TzLocation::datetime on every wall-clock minute around one symbolic transition (gap / fold <= {dt_jump} min)"), move || datetime_maps_back(dt_jump)));
-    if thorough {
-        // zones that skipped a whole day (Pacific/Apia 2011-12-30): gaps up to 25 hours
-        out.push(Template::new("datetime_day_gap", "TzLocation::datetime around one symbolic transition with a gap / fold of up to 1500 min".to_string(), move || datetime_maps_back(1500)));
-    }
+    out.push(Template::new("datetime", format!("TzLocation::datetime on every wall-clock minute around one symbolic transition (gap / fold <= {jump} min)"), move || datetime_maps_back(jump)));
+    // long gaps (zones that skipped many hours or a whole day): only wall-clock times inside the gap
+    let long_gap = 1500;
+    out.push(Template::new(
+        "datetime_long_gap",
+        format!("TzLocation::datetime of every skipped wall-clock minute of a {long_gap} min gap (zone jumping from UTC-10h)"),
+        move || datetime_in_gap(long_gap),
+    ));
     let mono_jump = if thorough { 65 } else { 12 };
     out.push(Template::new("monotone", format!("TzLocation::datetime is monotone (jump <= {mono_jump} min)"), move || datetime_monotone(mono_jump)));
     let n = RuleOperator::Normal;
